@@ -52,6 +52,14 @@ Theorem latch_bounded_work : forall n progs s sc,
   R n progs s -> sched_ok no_spurious sc -> (moves glob loc tstep s sc <= mu s)%nat.
 Proof. exact bounded_work. Qed.
 
+(* ... and is reached: from every reachable state in which n arrivals have happened there is a schedule
+   of at most mu(s) steps, with no spurious wake-up, after which every thread has finished *)
+Theorem latch_opens_eventually : forall n progs s,
+  R n progs s -> n <= Z.of_nat (arrivals (gl s)) ->
+  exists sc, sched_ok no_spurious sc /\ (length sc <= mu s)%nat /\
+             all_fin glob loc fin (run glob loc tstep s sc) = true.
+Proof. exact opens_eventually. Qed.
+
 (* arrive() never waits for other arrivals or for the latch to open: the only pc at which
    it can be disabled is the mutex acquisition, and the owner of the mutex can always move *)
 Theorem latch_arrive_nonblocking : forall n progs s t c l,
